@@ -659,6 +659,8 @@ class FileSystem(SimComponent):
 
         def __call__(self, request: RequestFormat, context: Dict) -> bool:
             """Returns True if folder exists."""
+            if len(request) < 1:
+                return False
             return self.file_system.get_folder(folder_name=request[0]) is not None
 
         @property
@@ -678,6 +680,8 @@ class FileSystem(SimComponent):
 
         def __call__(self, request: RequestFormat, context: Dict) -> bool:
             """Returns True if folder exists and is not deleted."""
+            if len(request) < 1:
+                return False
             # get folder
             folder = self.file_system.get_folder(folder_name=request[0], include_deleted=True)
             return folder is not None and not folder.deleted
@@ -699,6 +703,8 @@ class FileSystem(SimComponent):
 
         def __call__(self, request: RequestFormat, context: Dict) -> bool:
             """Returns True if file exists."""
+            if len(request) < 2:
+                return False
             return self.file_system.get_file(folder_name=request[0], file_name=request[1]) is not None
 
         @property
